@@ -486,6 +486,45 @@ fn c13_space<K: Kit>(spec: &Spec, lat: &[V], ts: &[f64], rep: &mut Report, label
     }
 }
 
+/// The law holds for the weights the space has NOW: a compound space is queried (resolution,
+/// distance), then its public `weights` field is edited, and the law is evaluated again on the same
+/// object and on a clone of it.
+fn c13_reweighted(spec: &Spec, lat: &[V], rep: &mut Report) {
+    let Spec::Cmp { parts, weights } = spec else { return };
+    let mut sp = Cmp::build(spec);
+    let st: Vec<<Cmp as Kit>::S> = lat.iter().take(6).map(Cmp::from_v).collect();
+    // first use with the original weights
+    let _ = sp.get_longest_valid_segment_length();
+    if st.len() >= 2 {
+        let _ = sp.distance(&st[0], &st[1]);
+    }
+    // rotate the weights (and scale them, so that equal tuples change too)
+    let k = weights.len();
+    let new_w: Vec<f64> = (0..k).map(|i| weights[(i + 1) % k] * 3.0 + 0.25).collect();
+    sp.weights = new_w.clone();
+    let clone = sp.clone();
+    rep.count("reweighted_spaces", 1);
+    for (name, s) in [("edited", &sp), ("clone-of-edited", &clone)] {
+        let want: f64 = (0..k).map(|i| (comp_lvs(&parts[i]) * new_w[i]).powi(2)).sum::<f64>().sqrt();
+        let got = s.get_longest_valid_segment_length();
+        rep.count("evaluations", 1);
+        if (got - want).abs() > 1e-12 * want.abs() {
+            viol(rep, "C13", "Compound", "resolution-after-reweighting", spec, format!("{name}: longest valid segment {got}, the weighted combination of the components with the CURRENT weights gives {want}"), json!({"weights_now": new_w}));
+        }
+        for i in 0..st.len() {
+            for j in 0..st.len() {
+                let (ai, bj) = (match &lat[i] { V::Cmp(c) => c.clone(), _ => unreachable!() }, match &lat[j] { V::Cmp(c) => c.clone(), _ => unreachable!() });
+                let d = s.distance(&st[i], &st[j]);
+                let want: f64 = (0..k).map(|q| (comp_dist(&parts[q], &ai[q], &bj[q]) * new_w[q]).powi(2)).sum::<f64>().sqrt();
+                rep.count("evaluations", 1);
+                if !((d - want).abs() <= 1e-12 * want.abs().max(1e-300)) {
+                    viol(rep, "C13", "Compound", "distance-after-reweighting", spec, format!("{name}: compound distance {d}, the law with the CURRENT weights gives {want}"), json!({"a": lat[i].json(), "b": lat[j].json(), "weights_now": new_w}));
+                }
+            }
+        }
+    }
+}
+
 // ----------------------------------------------------------------------------------------------
 // drivers
 
@@ -538,7 +577,10 @@ fn run_space(prop: &str, spec: &Spec, lat: &[V], ts: &[f64], triples: bool) -> R
         ("C10", Spec::Cmp { .. }) => c10_space::<Cmp>(spec, lat, ts, &mut rep),
         ("C10", Spec::Se2 { .. }) => c10_space::<Se2>(spec, lat, ts, &mut rep),
         ("C10", Spec::Se3 { .. }) => c10_space::<Se3>(spec, lat, ts, &mut rep),
-        ("C13", Spec::Cmp { .. }) => c13_space::<Cmp>(spec, lat, ts, &mut rep, ""),
+        ("C13", Spec::Cmp { .. }) => {
+            c13_space::<Cmp>(spec, lat, ts, &mut rep, "");
+            c13_reweighted(spec, lat, &mut rep);
+        }
         ("C13", Spec::Se2 { .. }) => c13_space::<Se2>(spec, lat, ts, &mut rep, "SE2-as-compound:"),
         ("C13", Spec::Se3 { .. }) => c13_space::<Se3>(spec, lat, ts, &mut rep, "SE3-as-compound:"),
         _ => panic!("run_space {prop} {spec:?}"),
@@ -615,7 +657,7 @@ pub fn run(prop: &'static str, tier: &'static str) -> i32 {
         must_be_positive: match prop {
             "C09" => vec!["pairs", "triples", "representation_pairs"],
             "C10" => vec!["antipodal_pairs"],
-            _ => vec!["sampling_comparisons", "wild_bounds_states", "wild_enforce_changed"],
+            _ => vec!["sampling_comparisons", "wild_bounds_states", "wild_enforce_changed", "reweighted_spaces"],
         },
     };
     finish(&meta, rep, t0)
